@@ -39,6 +39,13 @@ pub mod subscriber;
 #[cfg(debug_assertions)]
 pub mod debug_report;
 
+/// Verification-only accessors (cfg `excsn_fibre_verif`); nothing here exists in a normal build.
+#[cfg(excsn_fibre_verif)]
+pub mod verif {
+  pub use crate::init::verif::{router_from_config, Router};
+  pub use crate::roller::verif::Roller;
+}
+
 // This section defines what `debug_report` means in a release build.
 #[cfg(not(debug_assertions))]
 pub mod debug_report {
